@@ -14,4 +14,7 @@ T_SenderOps == [s1 |-> <<"send", "send", "try">>, s2 |-> <<"blockInf", "send">>]
 T_FlusherOps == [f1 |-> "flushInf", f2 |-> "flush0"]
 T2_SenderOps == [s1 |-> <<"send", "send">>, s2 |-> <<"send", "blockInf">>, s3 |-> <<"try">>]
 T2_FlusherOps == [f1 |-> "flushInf"]
+\* retry exhaustion: one item, every attempt fails
+R_SenderOps == [s1 |-> <<"send">>]
+R_FlusherOps == [f1 |-> "flushInf"]
 =============================================================================
